@@ -939,11 +939,13 @@ func (se *setEnum) Parse(lines []string) error {
 func parseValueFromSchema(s string, schema *spec.SimpleSchema) (interface{}, error) {
 	if schema != nil {
 		switch strings.Trim(schema.TypeName(), "\"") {
-		case "integer", "int", "int64", "int32", "int16":
+		case "integer", "int", "int64", "int32", "int16", "int8":
 			return strconv.Atoi(s)
+		case "uint", "uint64", "uint32", "uint16", "uint8":
+			return strconv.ParseUint(s, 10, 64)
 		case "bool", "boolean":
 			return strconv.ParseBool(s)
-		case "number", "float64", "float32":
+		case "number", "float64", "float32", "double", "float":
 			return strconv.ParseFloat(s, 64)
 		case "object":
 			var obj map[string]interface{}
